@@ -11,16 +11,16 @@ def finsOf (l : Lane) : List Nat := (l.done.filter Proc.ran).map (·.id)
 theorem laneStarted_eq (l : Lane) :
     laneStarted l = finsOf l ++ (match l.cur with | some p => [p.id] | none => []) := rfl
 
-theorem finsOf_start (ps : List Proc) : finsOf (Lane.start ps) = [] := by
+theorem finsOf_start (dec : Bool) (ps : List Proc) : finsOf (Lane.start dec ps) = [] := by
   cases ps with
   | nil => simp [Lane.start, launch, finsOf]
   | cons p ps => cases hp : p.spawn <;> simp [Lane.start, launch, hp, finsOf, Proc.ran]
 
 /-- Draining a lane: every process of the end state existed before as finished, or its exit is among
     the drain events. -/
-theorem drainFrom_fins (done : List Proc) (cur : Option Proc) (todo : List Proc) (i : Nat)
-    (hi : i ∈ laneStarted (drainFrom done cur todo)) :
-    i ∈ (done.filter Proc.ran).map (·.id) ∨ Event.fin i ∈ drainEventsFrom cur todo := by
+theorem drainFrom_fins (dec : Bool) (done : List Proc) (cur : Option Proc) (todo : List Proc) (i : Nat)
+    (hi : i ∈ laneStarted (drainFrom dec done cur todo)) :
+    i ∈ (done.filter Proc.ran).map (·.id) ∨ Event.fin i ∈ drainEventsFrom dec cur todo := by
   induction todo generalizing done cur with
   | nil =>
     cases cur with
@@ -52,7 +52,7 @@ theorem drainFrom_fins (done : List Proc) (cur : Option Proc) (todo : List Proc)
           · simp [hr] at h
       unfold drainFrom at hi
       unfold drainEventsFrom
-      by_cases hc : p.code ≠ 0
+      by_cases hc : p.halts dec = true
       · simp only [if_pos hc] at hi ⊢
         simp only [laneStarted, List.append_nil] at hi
         cases hp i hi with
@@ -82,12 +82,12 @@ theorem drainFrom_fins (done : List Proc) (cur : Option Proc) (todo : List Proc)
 
 theorem drain_fins (l : Lane) (i : Nat) (hi : i ∈ laneStarted l.drain) :
     i ∈ finsOf l ∨ Event.fin i ∈ l.drainEvents :=
-  drainFrom_fins l.done l.cur l.todo i hi
+  drainFrom_fins l.dec l.done l.cur l.todo i hi
 
 /-- One exit: what has finished afterwards had finished before, or is the exit just recorded. -/
 theorem complete_fins (l : Lane) (i : Nat) (hi : i ∈ finsOf l.complete) :
     i ∈ finsOf l ∨ Event.fin i ∈ l.completeEvents := by
-  obtain ⟨done, cur, todo⟩ := l
+  obtain ⟨done, cur, todo, dec⟩ := l
   cases cur with
   | none => exact .inl (by simpa [Lane.complete] using hi)
   | some p =>
@@ -103,7 +103,7 @@ theorem complete_fins (l : Lane) (i : Nat) (hi : i ∈ finsOf l.complete) :
         · simpa [hr] using h
         · simp [hr] at h
     simp only [Lane.complete, Lane.completeEvents, finsOf] at hi ⊢
-    by_cases hc : p.code ≠ 0
+    by_cases hc : p.halts dec = true
     · simp only [if_pos hc] at hi ⊢
       cases key done hi with
       | inl h => exact .inl h
@@ -190,7 +190,8 @@ theorem drainAll_fins (ls : List Lane) (i : Nat) (hi : i ∈ ((drainAll ls).map 
       | inl h => exact .inl (by simp [h])
       | inr h => exact .inr (by simp [drainAllEvents, h])
 
-theorem flatMap_finsOf_start (ls : List (List Proc)) : (ls.map Lane.start).flatMap finsOf = [] := by
+theorem flatMap_finsOf_start (ls : List ALane) :
+    (ls.map (fun l => Lane.start l.dec l.procs)).flatMap finsOf = [] := by
   induction ls with
   | nil => rfl
   | cons ps ls ih => simp [finsOf_start, ih]
